@@ -468,6 +468,15 @@ class Calls:
 
     def apply_contract(self, con, f: VFunc, self_sv, args, kwargs, st, node, vararg=None):
         """Modular call: the callee is represented by its sidecar contract only."""
+        if not hasattr(self, '_shape_over') or self._shape_over is None:
+            self._shape_over = []
+        self._shape_over.append(con.shapes or {})
+        try:
+            return self._apply_contract(con, f, self_sv, args, kwargs, st, node, vararg)
+        finally:
+            self._shape_over.pop()
+
+    def _apply_contract(self, con, f: VFunc, self_sv, args, kwargs, st, node, vararg=None):
         th = self.th
         env = self.bind_params(f.node, args, kwargs, st, self_sv=self_sv, module=f.module)
         if vararg is not None:
@@ -488,6 +497,11 @@ class Calls:
             res_t = th.fn('ret_' + name, *([th.Val] * len(argv)), th.Val)(*argv) if argv else th.const('ret0:' + name)
         result = VVal(res_t, fresh=con.result_fresh, kind=con.result_kind)
         penv = {p: self.respec(env[p], st) for p in pnames}
+        if f.env:
+            # a closure under contract: its clauses may name its free variables (bound in the defining activation)
+            for k_, v_ in f.env.items():
+                if k_ not in penv and not k_.startswith('$') and v_ is not None:
+                    penv[k_] = v_
         origin = f'call:{con.key}'
         if not self.spec_mode:
             for (lam, props, label) in con.requires:
